@@ -209,7 +209,11 @@ class Parser:
                 self.emit("fchmod:%d:%d" % (fd, mode), "fchmod:%s:%d" % (h, mode), errno)
             elif name == "write":
                 n = int(args[-1])
-                self.emit("write:%d:%d" % (fd, n), "write:%s:%d" % (h, n), errno)
+                if ok:
+                    n = int(ret)                            # a short write: what went through
+                    self.emit("write:%d:%d" % (fd, n), "write:%s:%d" % (h, n), errno)
+                else:                                       # no effect on the state; the model has no such call
+                    self.emit("wfail:%d:%d" % (fd, n), "wfail:%s:%d" % (h, n), errno)
             elif name == "read":
                 n = int(args[-1])
                 self.emit("read:%d:%d" % (fd, n), "read:%s:%d" % (h, n), errno)
@@ -277,6 +281,8 @@ def model_trace_input(lines, ps, raw_ops=()):
         cls = r.split("|")[0]
         if op == "up":
             inp.append("tr|up|%s|%s|%s|%s|%s|=>|x" % (a[0], a[1], a[2], cls, ";".join(toks)))
+        elif op == "upf":     # an upload with a write fault after a[3] bytes
+            inp.append("trf|%s|%s|%s|%s|%s|%s|=>|x" % (a[0], a[1], a[2], a[3], cls, ";".join(toks)))
         elif op == "discard":
             inp.append("tr|discard|%s|-|0|%s|%s|=>|x" % (a[0], cls, ";".join(toks)))
         else:
@@ -520,7 +526,7 @@ def move_rename_before_file_fsync(t):
 
 
 def trace_stage(res, hexe, mexe, workdir, tr, notes, tier):
-    scripts = [("helper", "basic", ()), ("helper", "nodir", ()), ("helper", "big", ()), ("race", "standin", (0,))]
+    scripts = [("helper", "basic", ()), ("helper", "nodir", ()), ("helper", "big", ()), ("helper", "wfault", ()), ("race", "standin", (0,))]
     for (mode, script, raw_ops) in scripts:
         try:
             lines, ps, sfile = strace_run(hexe, mode, script, workdir)
@@ -539,11 +545,13 @@ def trace_stage(res, hexe, mexe, workdir, tr, notes, tier):
         for k, (op, idx, toks, rend, line) in enumerate(meta):
             tr["ops"] += 1
             tr["calls"] += len(toks)
-            observed = ";".join(rend)
+            full = ";".join(rend)
+            # a failed write(2) is no event of the model (it has no effect on the state)
+            observed = ";".join(x for x in rend if not x.startswith("wfail:"))
             pred, obsr, mon = out["pred"].get(k, "?"), out["obsr"].get(k, "?"), out["mon"].get(k, "?")
             what = "script %s operation %d (%s)" % (script, idx, (line or "stand-in for the suspended writer A")[:160])
             replay_txt = "%s\nobserved system calls (fds resolved):\n  %s\nmodel's prediction:\n  %s\nmodel input line:\n%s\n" % (
-                what, observed.replace(";", "\n  "), pred.replace(";", "\n  "), inp[k + 1][:2000])
+                what, full.replace(";", "\n  "), pred.replace(";", "\n  "), inp[k + 1][:2000])
             if obsr != observed:
                 p = L.write_replay(PROP, "parser_%s_%d.txt" % (script, idx), "strace parser and model render the observed trace differently\n" + replay_txt + "\nmodel rendering of the observed trace:\n  " + obsr.replace(";", "\n  "))
                 res.violation(p, "trace parser cross-check failed", no_input=True)
@@ -558,7 +566,9 @@ def trace_stage(res, hexe, mexe, workdir, tr, notes, tier):
                     res.violation(p, "durable_ok false: " + mon[:200])
             else:
                 tr["monitor_ok"] += 1
-            if op in ("up", "discard"):
+            if op == "upf":
+                tr["write_fault_ops"] = tr.get("write_fault_ops", 0) + 1
+            if op in ("up", "upf", "discard"):
                 if pred == observed:
                     tr["matching_ops"] += 1
                 elif mon == "ok" or is_candidate:
